@@ -283,6 +283,9 @@ func runC19(c *fw.Ctx) {
 				}
 				c.Count("method_calls")
 				c.Distinct(in())
+				if c.WantSample() && depth >= 2 && size > 0 {
+					c.Sample(map[string]any{"call": in(), "expect": map[bool]string{true: "the identical registered outer value", false: "never the embedded container or an intermediate level"}[isFluent(m.Name)]})
+				}
 				res := out[0].Interface()
 				c19Judge(c, fx, m.Name, res, in)
 			})
